@@ -739,7 +739,7 @@ def rule_gi1(ctx):
 
 
 # ---------------------------------------------------------------------------
-def rule_pt1(ctx, rels):
+def rule_pt1(ctx, rels, scope=None):
     r = ctx.r
     r.rule("PT1", "a function that splits the last (coordinate) axis with an "
                   "end-complement slice `[..., :-1]` / `[..., 1:]` addresses "
@@ -751,6 +751,8 @@ def rule_pt1(ctx, rels):
         m = ctx.p.module_by_rel(rel)
         for f in ctx.p.all_functions:
             if f.module is not m or f.parent is not None:
+                continue
+            if scope is not None and f not in scope:
                 continue
             S = {}
             C = {}
@@ -800,7 +802,7 @@ def rule_pt1(ctx, rels):
 
 
 # ---------------------------------------------------------------------------
-def rule_eig1(ctx):
+def rule_eig1(ctx, only=None):
     r = ctx.r
     r.rule("EIG1", "every eigen-decomposition of a stored (row-convention) "
                    "transformation matrix is taken of its transpose "
@@ -812,6 +814,8 @@ def rule_eig1(ctx):
              (PROJ, "Transformation.eigenvector"),
              (PROJ, "Transformation.diagonalize")]
     for rel, q in sites:
+        if only is not None and q not in only:
+            continue
         f = ctx.p.get_function(rel, q)
         r.analysed(f)
         defs = single_defs(f.node)
